@@ -113,16 +113,21 @@ def run_c(d: str, tag: str, prog: str, incs, items):
     cmd = ["gcc", "-w", "-o", exe, src]
     for i in incs:
         cmd[1:1] = ["-I", i]
-    try:
-        p = subprocess.run(cmd, capture_output=True, timeout=60)
-    except subprocess.TimeoutExpired:
-        return {"error": "gcc timeout"}
+    p = None
+    for _attempt in range(2):                      # a shared, overloaded machine: be patient, try twice
+        try:
+            p = subprocess.run(cmd, capture_output=True, timeout=300)
+            break
+        except subprocess.TimeoutExpired:
+            continue
+    if p is None:
+        raise TimeoutError("gcc did not finish within 2 x 300 s")
     if p.returncode != 0:
         err = p.stderr.decode("utf-8", "replace")
         first = [l for l in err.split("\n") if "error" in l][:2]
         return {"error": "gcc: " + " | ".join(first)[:300]}
     try:
-        q = subprocess.run([exe], capture_output=True, timeout=20)
+        q = subprocess.run([exe], capture_output=True, timeout=120)
     except subprocess.TimeoutExpired:
         return {"error": "program timeout"}
     if q.returncode != 0:
@@ -279,11 +284,20 @@ def handle(job):
             res["c_whole"] = run_c(d, "whole", c_program(f'#include "{base}_bp.h"', items), incs, items)
         if job.get("c_slices") and "c_slices" in emitted:
             out = {}
-            for nm in job["c_slices"]:
-                v = emitted["c_slices"][nm]
-                r = run_c(d, "slice_" + nm, c_program(v["line"], [(nm, job["kinds"][nm])]), incs,
-                          [(nm, job["kinds"][nm])])
-                out[nm] = r["values"][nm] if "values" in r else ["error", r["error"]]
+            # one program with all the cut-out definitions when that compiles; otherwise one
+            # program per constant, so that a broken literal is attributed to its constant
+            items = [(nm, job["kinds"][nm]) for nm in job["c_slices"]]
+            together = run_c(d, "slices_all",
+                             c_program("\n".join(emitted["c_slices"][nm]["line"] for nm, _ in items), items),
+                             incs, items)
+            if "values" in together:
+                out = dict(together["values"])
+            else:
+                for nm in job["c_slices"]:
+                    v = emitted["c_slices"][nm]
+                    r = run_c(d, "slice_" + nm, c_program(v["line"], [(nm, job["kinds"][nm])]), incs,
+                              [(nm, job["kinds"][nm])])
+                    out[nm] = r["values"][nm] if "values" in r else ["error", r["error"]]
             res["c_slices"] = out
     return res
 
@@ -292,7 +306,7 @@ def main():
     jobs = json.load(sys.stdin)
     out = []
     for job in jobs:
-        signal.alarm(120)
+        signal.alarm(1500)
         try:
             out.append(handle(job))
         except TimeoutError as e:
